@@ -80,6 +80,19 @@ def _sc():
     S.append(('rw_hold_readers_2v', 'C06', 2, 'rwlock 1', [(0, WL), (1, 'rw_lock 0 0 -1'), (1, 'rw_lock 0 0 -1'), (0, 'rw_lock 0 0 -1')], [], ['']))
     S.append(('rw_hold_writer', 'C06', 3, 'rwlock 1', [(0, RL), (0, RL), (1, 'rw_lock 0 1 -1'), (2, 'rw_lock 0 0 -1')], [], ['']))
     S.append(('rw_timed', 'C06', 3, 'rwlock 1', [(0, 'rw_lock 0 0 -1;tick 100;rw_unlock 0'), (1, 'rw_lock 0 1 100;rw_unlock 0'), (2, RL)], [], ['']))
+    # ---- C04 sleep / interrupt / shutdown contract ACROSS vCPUs (plain thread_usleep only: F8 concerns wait-queue sleeps)
+    S.append(('sd_inf', 'C04', 2, '-', [(0, 'usleep -1;usleep -1'), (1, 'shutdown 0 1')], ['0!,1@2:t0,0!,1!', '0!,1@4:V0.sb,0!,1!'], ['0!', '']))
+    S.append(('sd_fin', 'C04', 2, '-', [(0, 'usleep 500000;usleep 500000;usleep 500000'), (1, 'shutdown 0 1')], ['0!,1@2:t0,0!,1!'], ['0!', '']))
+    S.append(('sd_2t', 'C04', 3, '-', [(0, 'usleep -1;usleep 70000'), (0, 'usleep -1;usleep -1'), (1, 'shutdown 0 1'), (2, 'shutdown 1 1')], [], ['0!', '']))
+    S.append(('sd_busy', 'C04', 2, '-', [(0, 'usleep -1;usleep 300;usleep -1'), (0, 'usleep 50;usleep 50'), (1, 'shutdown 0 1')], [], ['0!', '']))
+    S.append(('sd_late', 'C04', 2, '-', [(0, 'usleep 100;usleep -1'), (1, 'usleep 50;shutdown 0 1')], [], ['']))
+    S.append(('intr_1', 'C04', 2, '-', [(0, 'usleep -1;usleep 100'), (1, 'interrupt 0 4')], [], ['0!', '']))
+    S.append(('intr_race', 'C04', 2, '-', [(0, 'usleep 100;usleep 100'), (1, 'tick 100;interrupt 0 4')], ['0!,1@3:t0,0!,1!'], ['0!', '']))
+    S.append(('intr_2i', 'C04', 3, '-', [(0, 'usleep -1;usleep -1'), (1, 'interrupt 0 4'), (2, 'interrupt 0 5')], [], ['0!', '']))
+    S.append(('intr_2s', 'C04', 2, '-', [(0, 'usleep 1000'), (0, 'usleep 2000'), (1, 'interrupt 0 4;interrupt 1 5')], [], ['0!', '']))
+    S.append(('intr_sd', 'C04', 3, '-', [(0, 'usleep -1;usleep -1'), (1, 'interrupt 0 4'), (2, 'shutdown 0 1')], [], ['0!', '']))
+    S.append(('sleep_deadlines', 'C04', 2, '-', [(0, 'usleep 100;usleep 50'), (1, 'usleep 120'), (1, 'tick 30;usleep 10')], [], ['']))
+    S.append(('sleep_resume', 'C04', 3, '-', [(0, 'usleep 200'), (0, 'usleep -1'), (1, 'interrupt 1 0;usleep 20'), (2, 'usleep 200;interrupt 1 7')], [], ['0!', '']))
     return S
 
 
@@ -88,7 +101,8 @@ SCENARIOS = _sc()
 # is released, every demand is covered): a thread still blocked at quiescence is a lost hand-off / wake-up / admission
 NO_BARGING = {'sem_mixed_intr', 'sem_mixed_timeout'}
 MUST_COMPLETE = {'mx_handoff', 'mx_late', 'mx_retry', 'mx_twice', 'mx_timed', 'mx_timed_race', 'mx_intr', 'sem_1w1s', 'sem_2w2s', 'sem_d2', 'sem_pingpong',
-                 'sem_timed', 'rw_rw', 'rw_rwr', 'rw_wwr', 'rw_readers', 'rw_default_retries', 'cv_all_vs_timeout'}
+                 'sem_timed', 'rw_rw', 'rw_rwr', 'rw_wwr', 'rw_readers', 'rw_default_retries', 'cv_all_vs_timeout',
+                 'sd_fin', 'intr_race', 'intr_2s', 'sleep_deadlines'}
 
 
 def case_line(sc, sched):
@@ -140,6 +154,8 @@ class Run:
                 self.events.append(('Q' + m.group(1), m.group(2), int(m.group(3))))
             elif c == 'X':
                 self.events.append(('X', int(e[1:])))
+            elif c == 'N':
+                a, b = e[1:].split(':'); self.events.append(('N', int(a), int(b)))
             elif c == 'J':
                 self.events.append(('J', int(e[2:])))
             else:
@@ -420,6 +436,80 @@ def rw_oracle(run, li, cov):
     return out
 
 
+EPERM = 1
+
+
+def sleep_oracle(run):
+    """C04 across vCPUs, plain thread_usleep only.  A thread is MARKED from the moment thread_shutdown(T, true) has returned, or T's sleep
+    was interrupted by that very call (the mark precedes the wake-up): every sleep T issues afterwards returns -1 within
+    min(t, 10 ms).  A sleeper woken by interrupt / shutdown returns -1 with exactly that errno, once; an undisturbed sleep returns 0
+    at/after its deadline and — if no `tick` ran meanwhile — exactly at the first clock value >= its deadline; nobody sleeps past a
+    finite bound at quiescence.  Interrupts that met a non-sleeping thread (F6/F7) only widen the set of accepted errnos."""
+    out = []
+    def inflight(tid, idx):
+        for o in run.ops.values():
+            if o['tid'] == tid and o['s'] < idx and (o['r'] is None or o['r'] > idx): return o
+        return None
+    hits = {}                          # target tid -> list of (event index, causing op or None)
+    for i, e in enumerate(run.events):
+        if e[0] == 'N': hits.setdefault(e[1], []).append((i, inflight(e[2], i) if e[2] >= 0 else None))
+    ticks = [o['s'] for o in run.ops.values() if o['name'] == 'tick']
+    for t in range(len(run.prog)):
+        sleeps = run.oplist(lambda o: o['tid'] == t and o['name'] == 'usleep' and o['args'][0] != 0)
+        if not sleeps: continue
+        mark = None; unmark = None
+        for o in run.ops.values():
+            if o['name'] == 'shutdown' and o['args'][0] == t and run.executed(o):
+                if (o['args'] + [1, 1])[1]:
+                    c = [o['r']] if o['r'] is not None else []
+                    c += [i for i, cause in hits.get(t, []) if cause is o]
+                    if c: mark = min(c) if mark is None else min(mark, min(c))
+                else:
+                    unmark = o['s'] if unmark is None else min(unmark, o['s'])
+        ready_intr = [o for o in run.ops.values() if o['name'] == 'interrupt' and o['args'][0] == t and not any(c is o for _, c in hits.get(t, []))]
+        for u in sleeps:
+            tm = u['args'][0]
+            marked = mark is not None and u['s'] > mark and (unmark is None or unmark > (u['r'] if u['r'] is not None else run.n))
+            lim = tm if not marked else (10000 if tm == INF else min(tm, 10000))
+            end = u['r'] if u['r'] is not None else run.n
+            h = [(i, c) for i, c in hits.get(t, []) if u['s'] < i < end]
+            who = 'T%d op %d (usleep %d%s)' % (t, u['pc'], tm, ', issued after thread_shutdown marked the thread' if marked else '')
+            if u['r'] is None:
+                if not run.prefix:
+                    if h: out.append('%s was woken by T%d but never returned' % (who, run.events[h[0][0]][2]))
+                    elif lim != INF: out.append('%s is still asleep at quiescence although it must end within %d us%s' % (who, lim, ' (10 ms bound of a thread that is shutting down)' if marked else ''))
+                continue
+            if len(h) > 1:
+                out.append('%s was interrupted %d times during ONE sleep' % (who, len(h)))
+            resumed = bool(h) and h[0][1] is not None and h[0][1]['name'] == 'interrupt' and (h[0][1]['args'] + [4, 4])[1] == 0     # thread_resume
+            if u['ret'] == 0:
+                if h and not resumed: out.append('%s returned 0 although it was interrupted while sleeping' % who)
+                if marked: out.append('%s returned 0 (slept %d us): a thread that is shutting down must get -1 within 10 ms' % (who, u['r_now'] - u['s_now']))
+                elif not resumed and tm != INF and u['r_now'] < u['s_now'] + tm: out.append('%s returned 0 at now=%d, before its deadline %d' % (who, u['r_now'], u['s_now'] + tm))
+                if tm == INF and not resumed: out.append('%s returned 0' % who)
+            elif u['ret'] == -1:
+                if h and h[0][1] is not None:
+                    c = h[0][1]
+                    want = EPERM if c['name'] == 'shutdown' else (c['args'] + [4, 4])[1] if c['name'] == 'interrupt' else None
+                    if resumed and marked: want = EPERM
+                    if want is not None and want != 0 and u['err'] != want:
+                        out.append('%s was woken by %s of T%d (errno %d) but returned -1/errno %d' % (who, c['name'], c['tid'], want, u['err']))
+                    if want == 0:
+                        out.append('%s was resumed (interrupt with errno 0) but returned -1/errno %d' % (who, u['err']))
+                elif not h:
+                    ok = (u['err'] == EPERM and any(o['name'] == 'shutdown' and o['args'][0] == t and o['s'] < u['r'] for o in run.ops.values())) or \
+                         any(o['s'] < u['r'] and (o['args'] + [4, 4])[1] == u['err'] for o in ready_intr)
+                    if not ok: out.append('%s returned -1/errno %d which nobody delivered' % (who, u['err']))
+            else:
+                out.append('%s returned %d' % (who, u['ret']))
+            # upper bound in virtual time (only when no tick moved the clock meanwhile: then the clock only jumps to deadlines)
+            if lim != INF and not h and not any(u['s'] < x < u['r'] for x in ticks):
+                bound = max(u['s_vc'], u['s_now'] + lim)
+                if u['r_vc'] > bound:
+                    out.append('%s returned at virtual time %d, later than the first round after its deadline %d' % (who, u['r_vc'], bound))
+    return out
+
+
 def judge(run, cov, scenario=None):
     """all oracles that apply to the objects of the case; returns {property: [messages]}"""
     res = {}
@@ -445,6 +535,9 @@ def judge(run, cov, scenario=None):
         elif d[0] == 'rwlock':
             m = rw_oracle(run, i, cov)
             if m: res.setdefault('C06', []).extend(m)
+    if any(op[0] in ('usleep', 'shutdown') for v, ops in run.prog for op in ops):
+        m = sleep_oracle(run)
+        if m: res.setdefault('C04', []).extend(m)
     if scenario and scenario[0] in MUST_COMPLETE and not run.prefix and run.blocked:
         res.setdefault(scenario[1], []).append('scenario %s completes under every schedule, but at quiescence %s still blocked (%s); final state: %s' % (
             scenario[0], ', '.join('T%d in op %d (%s)' % (t, pc, ' '.join(run.prog[t][1][pc])) for t, pc in run.blocked), 'lost wake-up / hand-off', run.f.get('fin', '').strip()))
@@ -589,7 +682,8 @@ def _run(props, tier, seed, budget_s, scenarios, exe, tmp, t0):
             violations.append(dict(_p=p, kind='oracle', case='E4S %s: %s' % (scn, rc),
                                    message='E4S (controlled multi-vCPU schedule, %s): %s' % (p if p != '*' else 'all', msg) + (' [+%d more]' % (len(j2[p]) - 1) if len(j2[p]) > 1 else ''),
                                    model_out='property oracle on the event log: ' + {'C01': 'one owner; lock() == 0 iff owner; nobody asleep on a free mutex', 'C02': 'token ledger; no waiter asleep while the count covers its demand',
-                                             'C03': 'notify_one wakes exactly one queued waiter, null only on an empty queue; notify_all wakes all; wait returns with the mutex', 'C06': 'writer alone / readers share; admission at quiescence'}.get(p, 'run completes'),
+                                             'C03': 'notify_one wakes exactly one queued waiter, null only on an empty queue; notify_all wakes all; wait returns with the mutex', 'C06': 'writer alone / readers share; admission at quiescence',
+                                             'C04': 'sleep returns 0 at its deadline or -1 with the interrupter errno once; a thread marked by thread_shutdown gets -1 within 10 ms from every later thread_usleep'}.get(p, 'run completes'),
                                    impl_out=('ev=%s | blocked=%s | fin=%s | sched=%s | trace=%s' % (r2.f.get('ev'), r2.f.get('blocked'), r2.f.get('fin'), r2.f.get('sched'), r2.f.get('trace', '')))[:6000]))
             done = True
             break
